@@ -15,7 +15,7 @@ BuildOk(e) ==
   LET conf == e.conf  r == e.res  want0 == NewMessage(conf, None)  want == NewMessage(conf, e.sh0) IN      \* e.sh0: storage header given to Message::new
   ConfFits(conf) =>
     /\ r.v = "ok"
-    /\ r.m = want                                                        \* fields, payload length, VERB / NOAR as the payload kind requires
+    /\ [r.m EXCEPT !.h.plen = 0] = [want EXCEPT !.h.plen = 0]             \* fields, VERB / NOAR as the payload kind requires (the payload length: next line)
     /\ r.m.h.plen = Len(r.bytes) - HdrsLen(r.bytes[1])                   \* recorded payload length = serialised payload
     /\ r.blen = Len(r.bytes)                                             \* byte length = serialisation without storage header
     /\ r.m2 = AddStorageHeader(r.m, e.ts.secs, e.ts.us)
@@ -49,7 +49,7 @@ RealOk(e) ==
   LET d == ToRealValue(e.shape, e.prod, e.off)  r == e.res IN
   CASE d.v = "none" -> r.v = "none"
     [] d.v = "some" -> r.v = "some" /\ Num!Eq(r.limbs, d.limbs)
-    [] d.v = "some-any" -> r.v = "some"
+    [] d.v = "some-any" -> r.v \in {"some", "none"}      \* outside the stated domain: any value or nothing, only no panic
 Matches(e) == CASE e.op = "build" -> BuildOk(e)
                 [] e.op = "layout" -> LayoutOk(e)
                 [] e.op = "roundnew" -> RoundNewOk(e)
